@@ -43,6 +43,10 @@ class Gen:
         if depth > 0 and r < 0.20:
             return ("if", self.rnd.randrange(2), self.block(depth - 1, self.rnd.randint(1, 3)),
                     self.block(depth - 1, self.rnd.randint(1, 3)) if self.rnd.random() < 0.6 else None)
+        if depth > 0 and r < 0.225:
+            # a loop that allocates a temporary, fills it on the data mover, consumes it on the compute core and frees it
+            # as the last thing of its body
+            return ("fortmp", self.pick(T8), self.pick(T8), self.pick(T8), self.newtag(), self.newtag(), self.rnd.choice(["args", "k0_3_2", "k0_2_1"]))
         if r < 0.28 and self.nview < 3:
             self.nview += 1
             nm = f"%v{self.nview}"
@@ -101,6 +105,20 @@ def render(prog, deallocs, diamond=None):
                 L.append(P + mc.XDMA_REGION1.format(acc=acc, i0=a, o=b, t=t, ti=el(ti), to=el(to), tyi=ti, tyo=to, ind=P))
             elif s[0] == "gen8":
                 L.append(P + GENERIC8.format(i0=s[1], i1=s[2], o=s[3], t=s[4], ty=T8B, ind=P))
+            elif s[0] == "fortmp":
+                _, x, y, z, t1, t2, kind = s
+                n[0] += 1
+                if kind == "args":
+                    lo, hi, stp = "%lb", "%ub", "%st"
+                else:
+                    a, b, c = kind[1:].split("_")
+                    lo, hi, stp = f"%k{a}", f"%k{b}", f"%k{c}"
+                L.append(P + f"scf.for %i{n[0]} = {lo} to {hi} step {stp} {{")
+                L.append(P + f"  %tmp{n[0]} = memref.alloc() : {T8}")
+                L.append(P + f'  "memref.copy"({x}, %tmp{n[0]}) {{tag = {t1} : i32}} : ({T8}, {T8}) -> ()')
+                L.append(P + "  " + mc.GENERIC.format(i0=f"%tmp{n[0]}", i1=y, o=z, t=t2, ty=T8, ind=P + "  "))
+                L.append(P + f'  "memref.dealloc"(%tmp{n[0]}) {{tag = {800 + n[0]} : i32}} : ({T8}) -> ()')
+                L.append(P + "}")
             elif s[0] == "use":
                 L.append(P + f'"test.op"({s[1]}) {{tag = {s[3]} : i32}} : ({s[2]}) -> ()')
             elif s[0] == "test":
@@ -293,6 +311,14 @@ def case_prog(case, K=2):
         ev3 = run_trace(m3, args, core, K)
         nb3 = sum(1 for e in ev3 if e[0] == "barrier")
         E.oblige("barriers:executed_by_every_core", z3.BoolVal(nb == nb3), dict(before_dispatch=nb, on_this_core=nb3))
+        # lowering to function calls (snax-to-func) keeps every barrier (deallocations disappear, barriers do not)
+        m4 = m3.clone()
+        try:
+            xshim.apply_passes(m4, "snax-to-func", main)
+            nb4 = sum(1 for e in run_trace(m4, args, core, K) if e[0] == "barrier")
+            E.oblige("barriers:kept_by_the_lowering_to_function_calls", z3.BoolVal(nb4 == nb3), dict(before=nb3, after=nb4))
+        except irsym.InterpError as e:
+            E.notes.append(f"snax-to-func output not executed: {str(e)[:80]}")
         E.oblige("explored", True)
 
     def replay(f):
